@@ -133,10 +133,20 @@ def gen_case(seed, idx, tier):
             cfg.groups = None
             sid1 = c.add("c08", lambda sid, w=words: argh.scenario_text(sid, "single", cfg, w))
             cfg.groups = [(n, 0) for n in names]
-            sid2 = c.add("c08", lambda sid, w=words: argh.scenario_text(sid, "group", cfg, w))
+            astr = None
+            if rng.random() < 0.25 and all(w != "" for w in words):
+                # the group evaluated through evalArgumentString( string, program name): same words as one quoted string
+                astr = (" ".join(quote_word(rng, w) for w in words), rng.choice(["prog", None, "/opt/bin/prog"]))
+            sid2 = c.add("c08", lambda sid, w=words: argh.scenario_text(sid, "group-string" if astr else "group", cfg, w, as_string=astr))
             cfg.groups = None
             c.meta["runs"].append((kind, why, words, sid1, sid2, m))
     return c
+
+
+def quote_word(rng, w):
+    import c07
+    name, fn = rng.choice(c07.STRATS[:3])
+    return fn(w, rng) if any(ch in c07.SPECIAL for ch in w) or rng.random() < 0.2 else w
 
 
 def gen_interleave(c, rng):
